@@ -107,7 +107,7 @@ pub fn check(c: &Case) -> Result<(), String> {
 }
 
 pub fn run(ctx: &mut Ctx) -> Result<(), Violation> {
-    ctx.rule = "enumerated: every length 0..=80 x fixed id table {0,1,2,255,256,2^32-1,2^32,2^63-1,2^63,2^64-1}+2 seeded ids x K seeded keys/contexts (random, zero, 0xff classes); plus proptest-random (key,ctx,id,len) cases. Oracle: dryoc == libsodium crypto_kdf_derive_from_key == RFC 7693 BLAKE2b model with salt/personal; rejected lengths Err in both; metamorphic distinctness. Non-trivial: accepted length != 32 or id >= 2^32; distinct = hash(key,ctx,id,len).".into();
+    ctx.rule = "enumerated: every length 0..=80 (and, with 2 keys, every length 81..=1100 and 2^16, 2^17 + 0..=80) x fixed id table {0,1,2,255,256,2^32-1,2^32,2^63-1,2^63,2^64-1}+2 seeded ids x K seeded keys/contexts (random, zero, 0xff classes); plus proptest-random (key,ctx,id,len) cases. Oracle: dryoc == libsodium crypto_kdf_derive_from_key == RFC 7693 BLAKE2b model with salt/personal; rejected lengths Err in both; metamorphic distinctness. Non-trivial: accepted length != 32 or id >= 2^32; distinct = hash(key,ctx,id,len).".into();
     ctx.assumptions = vec![
         "libsodium 1.0.18 (libsodium-sys static build) is a correct reference".into(),
         "BLAKE2b model pinned by RFC 7693 'abc' vector at start-up".into(),
@@ -120,6 +120,17 @@ pub fn run(ctx: &mut Ctx) -> Result<(), Violation> {
     let mut items = vec![];
     for len in 0..=80usize {
         for k in 0..nkeys {
+            items.push((len, k));
+        }
+    }
+    // "rejects other lengths": every length up to 1100 and the neighbourhoods of 2^8 and 2^16 multiples
+    // plus an accepted length (a length check done on a narrowed integer would accept these)
+    let mut far: Vec<usize> = (81..=1100usize).collect();
+    for base in [1usize << 16, 1 << 17] {
+        far.extend((base..=base + 80).step_by(1));
+    }
+    for len in far {
+        for k in 0..2usize {
             items.push((len, k));
         }
     }
@@ -163,7 +174,7 @@ pub fn run(ctx: &mut Ctx) -> Result<(), Violation> {
         }
         check(c)
     })?;
-    ctx.ev.extra.insert("lengths_enumerated".into(), json!("0..=80 (complete)"));
+    ctx.ev.extra.insert("lengths_enumerated".into(), json!("0..=1100 (complete) and {2^16, 2^17} + 0..=80"));
     Ok(())
 }
 
